@@ -564,6 +564,28 @@ fn core_name(v: &Variable, lexeme: bool) -> bool {
         Variable::CompoundVariable(c) => plain_run_s(&c.name) && !c.indexes.is_empty() && core_idx(&c.indexes, lexeme),
     }
 }
+/// first token of the printed expression if it is a word (`notForHead` of the model looks at it)
+fn first_word(e: &PreExp) -> Option<String> {
+    match e {
+        PreExp::Primitive(p) => match p.value() { Primitive::Boolean(b) => Some(b.to_string()), _ => None },
+        PreExp::Variable(n) => Some(n.value().clone()),
+        PreExp::CompoundVariable(c) => Some(c.name.clone()),
+        PreExp::ArrayAccess(a) => Some(a.name.clone()),
+        PreExp::FunctionCall(_, f) => if range_sugar(f) { if !matches!(&f.args[0], PreExp::BinaryOperation(..) | PreExp::UnaryOperation(..)) { first_word(&f.args[0]) } else { None } } else { Some(f.name.clone()) },
+        PreExp::BlockFunction(b) => Some(b.kind.to_string()),
+        PreExp::BlockScopedFunction(b) => Some(b.kind.to_string()),
+        PreExp::UnaryOperation(op, _) => if matches!(**op, rooc::UnOp::Not) { Some("not".into()) } else { None },
+        PreExp::BinaryOperation(op, l, _) => {
+            let paren = matches!(&**l, PreExp::BinaryOperation(c, _, _) if c.precedence() < op.precedence() || (c.precedence() == op.precedence() && !c.is_left_associative()));
+            if paren { None } else { first_word(l) }
+        }
+    }
+}
+fn not_for(w: Option<String>) -> bool { w.map(|w| w.to_ascii_lowercase() != "for").unwrap_or(true) }
+fn name_word(v: &Variable) -> Option<String> {
+    Some(match v { Variable::Variable(n) => n.clone(), Variable::CompoundVariable(c) => c.name.clone() })
+}
+
 /// THE PRINTABLE FRAGMENT (decidable predicate `coreProgram` of the model) on a parsed program
 pub fn in_fragment(m: &PreModel, lexeme: bool) -> bool {
     let o = m.objective();
@@ -572,6 +594,7 @@ pub fn in_fragment(m: &PreModel, lexeme: bool) -> bool {
         && m.constraints().iter().all(|c| {
             c.name_exp.as_ref().map(|n| core_name(n.value(), lexeme)).unwrap_or(true)
                 && core_exp(&c.lhs, lexeme) && (c.is_logic_assertion || core_exp(&c.rhs, lexeme)) && core_for(&c.iteration, lexeme)
+                && not_for(match &c.name_exp { Some(n) => name_word(n.value()), None => first_word(&c.lhs) })
         })
         && m.constants().iter().all(|k| plain_var(k.name.value()) && core_exp(&k.value, lexeme))
         && m.domains().iter().all(|d| {
@@ -586,6 +609,7 @@ pub fn in_fragment(m: &PreModel, lexeme: bool) -> bool {
                     PreVariableType::IntegerRange(a, b) => core_exp(a, lexeme) && core_exp(b, lexeme),
                 }
                 && core_for(d.iteration(), lexeme)
+                && not_for(d.variables().first().and_then(|v| name_word(v.value())))
         })
         && (!m.constraints().is_empty() || (m.constants().is_empty() && m.domains().is_empty()))
 }
